@@ -10,6 +10,8 @@ C19 worker: executes codec entry points of /repo's working tree in *fresh interp
 requests      {"op":"first","specs":[spec,…]}   each spec in its own child ("called first")
               {"op":"seq","calls":[spec,…]}      all calls in ONE child, in order (a history) + state probe
               {"op":"probe"}                      state probe of the pristine state
+              {"op":"graph-list"} / {"op":"graph","targets":[…]}   construction aliasing probe (c19_graph.py): every class of the
+                                                  library built twice, every mutable node of the object edited in place
               {"op":"quit"}
 spec          {"ep": name, "a": [encoded argument,…]}     (+ "m": 1 - afterwards the caller overwrites the buffers it got back)
               encoded arguments: see dec(); ["h", slot, enc] is a buffer the caller keeps and re-uses within a history
@@ -1253,6 +1255,14 @@ def child(fn, timeout):
     return json.loads(data)
 
 
+def _graph():
+    try:
+        import c19_graph as g
+    except ImportError:
+        from props import c19_graph as g
+    return g
+
+
 def serve():
     proto_out = os.fdopen(os.dup(1), "w")
     devnull = open(os.devnull, "w")
@@ -1281,7 +1291,11 @@ def serve():
             resp = {"r": [x if isinstance(x, list) else ["ERR worker " + x.get("child_error", "?"), [], ""] for x in res]}
         elif op == "seq":
 
-            def run_seq(calls=req["calls"], want_probe=req.get("probe", True), full=req.get("full", False), hold=req.get("hold", False), reseed=req.get("reseed", False)):
+            deep = bool(req.get("deep")) and bool(req.get("hold"))
+            if deep:
+                _graph().registry(imported_only=True)  # listed once per server, before the fork: reading, no import, no library call
+
+            def run_seq(calls=req["calls"], want_probe=req.get("probe", True), full=req.get("full", False), hold=req.get("hold", False), reseed=req.get("reseed", False), deep=deep):
                 keep = [] if hold else None
                 rs = []
                 for i, s in enumerate(calls):
@@ -1323,6 +1337,15 @@ def serve():
                             if j != i and len(al) < 5:
                                 al.append([j, i, type(o).__name__])
                     out["held_alias"] = al
+                    if deep:
+                        # below the top level: nodes of the returned object graphs that are library-held objects or nodes of another
+                        # call's result (c19_graph.deep_sharing)
+                        try:
+                            out["held_deep"] = _graph().deep_sharing([k[0] if k is not None else None for k in keep])
+                        except BaseException as e:  # noqa
+                            if isinstance(e, (KeyboardInterrupt, SystemExit)):
+                                raise
+                            out["held_deep"] = {"error": type(e).__name__ + ": " + str(e)[:200]}
                 out["probe"] = probe() if want_probe else None
                 return out
 
@@ -1331,6 +1354,16 @@ def serve():
             resp = child(lambda: {"probe": probe()}, 120)
         elif op == "auto":
             resp = child(auto_inventory, 120)
+        elif op == "graph-list":
+            # construction aliasing probe (c19_graph.py): the classes of the library and how to build them
+            resp = child(lambda: _graph().targets(bool(req.get("thorough")), int(req.get("seed") or 0)), 300)
+        elif op == "graph":
+            # every target in its own child: built twice, the attribute graph walked, every mutable node edited in place
+            # (the modules are imported and the library's own objects listed once, here: reading, no library call; servers that
+            # answer graph requests answer nothing else)
+            _graph().registry()
+            res = [child(lambda t=t: _graph().examine(t), 120) for t in req["targets"]]
+            resp = {"r": res}
         else:
             resp = {"child_error": "bad op"}
         proto_out.write(json.dumps(resp) + "\n")
